@@ -662,6 +662,85 @@ def inplace_builders(repo):
     return sorted(set(out))
 
 
+FRESH_CALLS = ("generate_random_identifier", "uuid4", "uuid.uuid4", "_random_id", "_random_branch_id", "_random_sequence_id",
+               "_auto_incrementing_name")
+
+
+def temp_object_names(repo):
+    """for every engine reader/writer (sqlframe/*/readwriter.py, base/readerwriter.py, base/mixins/readwriter_mixins.py): the local
+    names under which a temporary view / table is created (the name after CREATE ... VIEW|TABLE in an f-string, `this=` of an
+    exp.Create, and every local called *tmp* / *temp* that is not the statement text itself), and whether the name is FRESH per call
+    (its definition, followed through local assignments and `.get(key, default)`, draws a random identifier / uuid / session
+    counter) or only DERIVED from the arguments"""
+    import glob
+    files = sorted(glob.glob(os.path.join(repo, "sqlframe", "*", "readwriter.py"))) + \
+        [os.path.join(repo, "sqlframe/base/mixins/readwriter_mixins.py")]
+    out = []
+    for path in files:
+        tree, _ = py2v.load(path)
+        rel = os.path.relpath(path, os.path.join(repo, "sqlframe"))[:-3]
+        par = _parents(tree)
+        for f in ast.walk(tree):
+            if not isinstance(f, (ast.FunctionDef, ast.AsyncFunctionDef)):
+                continue
+            assigns = {}
+            for n in ast.walk(f):
+                if isinstance(n, ast.Assign) and len(n.targets) == 1 and isinstance(n.targets[0], ast.Name):
+                    assigns.setdefault(n.targets[0].id, []).append(n.value)
+                elif isinstance(n, ast.AnnAssign) and isinstance(n.target, ast.Name) and n.value is not None:
+                    assigns.setdefault(n.target.id, []).append(n.value)
+
+            def is_stmt_text(v):
+                return isinstance(v, (ast.JoinedStr, ast.BinOp)) and "CREATE" in ast.unparse(v).upper()
+            cands = set()
+            for n in ast.walk(f):
+                if isinstance(n, ast.JoinedStr):
+                    for a, b in zip(n.values, n.values[1:]):
+                        if isinstance(a, ast.Constant) and isinstance(a.value, str) and isinstance(b, ast.FormattedValue) \
+                                and "CREATE" in "".join(x.value for x in n.values if isinstance(x, ast.Constant) and isinstance(x.value, str)).upper() \
+                                and a.value.upper().rstrip().endswith(("VIEW", "TABLE")) and isinstance(b.value, ast.Name):
+                            cands.add(b.value.id)
+                if isinstance(n, ast.Call) and dotted(n.func) == "exp.Create":
+                    for k in n.keywords:
+                        if k.arg == "this":
+                            for x in ast.walk(k.value):
+                                if isinstance(x, ast.Name) and x.id in assigns:
+                                    cands.add(x.id)
+            for name, vals in assigns.items():
+                if ("tmp" in name.lower() or "temp" in name.lower()) and not all(is_stmt_text(v) for v in vals):
+                    cands.add(name)
+
+            def fresh(v, depth=0, seen=()):
+                for x in ast.walk(v):
+                    d = dotted(x.func) if isinstance(x, ast.Call) else dotted(x) if isinstance(x, ast.Attribute) else None
+                    if d and d.split(".")[-1] in [c.split(".")[-1] for c in FRESH_CALLS]:
+                        return True
+                if depth < 4:
+                    for x in ast.walk(v):
+                        if isinstance(x, ast.Name) and x.id in assigns and x.id not in seen:
+                            if any(fresh(w, depth + 1, seen + (x.id,)) for w in assigns[x.id]):
+                                return True
+                return False
+            cls = None
+            cur = f
+            while cur in par:
+                cur = par[cur]
+                if isinstance(cur, ast.ClassDef):
+                    cls = cur.name
+                    break
+            for name in sorted(cands):
+                vals = [v for v in assigns.get(name, []) if not is_stmt_text(v)]
+                if not vals:
+                    continue
+                # a parameter / table object that only re-wraps a caller-given name is not a temporary the reader invents
+                if all(isinstance(v, ast.Call) and dotted(v.func) in ("exp.to_table", "normalize_string", "exp.to_identifier")
+                       and not fresh(v) and not any("tmp" in n2.lower() or "temp" in n2.lower() for n2 in [name]) for v in vals):
+                    continue
+                kind = "fresh" if all(fresh(v) for v in vals) else "derived"
+                out.append((f"{rel}.{cls + '.' if cls else ''}{f.name}:{name}", kind))
+    return sorted(set(out))
+
+
 def generate(repo: str):
     P = lambda p: py2v.load(os.path.join(repo, p))  # noqa
     norm_tree, norm_src = P("sqlframe/base/normalize.py")
@@ -684,6 +763,7 @@ def generate(repo: str):
     set_its = set_iterations(repo)
     accs = accessor_kinds(ses_tree, duck_tree)
     inplace = inplace_builders(repo)
+    temps = temp_object_names(repo)
 
     def b(x):
         return "true" if x else "false"
@@ -714,7 +794,10 @@ def generate(repo: str):
     L.append("Definition set_iterations : list string := [" + "; ".join(s(x.replace('"', "'")) for x in set_its) + "].")
     L.append("Definition session_accessors : list (string * string) := [" + "; ".join(f"({s(a)}, {s(k)})" for a, k in accs) + "].")
     L.append("Definition inplace_builder_calls : list string := [" + "; ".join(s(x.replace('"', "'")) for x in inplace) + "].")
+    L.append("Definition temp_object_names : list (string * string) := [" + "; ".join(f"({s(a)}, {s(k)})" for a, k in temps) + "].")
     facts = [
+        {"name": "names of temporary views/tables created by the engines' readers and writers: fresh per call | derived from the arguments",
+         "from": "sqlframe/*/readwriter.py, base/mixins/readwriter_mixins.py", "value": [list(x) for x in temps]},
         {"name": "ordered output built from a set (order depends on PYTHONHASHSEED)", "from": ", ".join(SCAN_DIRS), "value": set_its},
         {"name": "session accessors: property | cached_property", "from": "session.py, duckdb/session.py", "value": [list(x) for x in accs]},
         {"name": "builders applied in place (copy=False) to a frame's expression", "from": ", ".join(SCAN_DIRS), "value": inplace},
